@@ -97,7 +97,8 @@ def rule_lockstep(ctx):
                     if not match:
                         # DMRGX keeps a temporary eigenvector index on the ket only while selecting; it must be followed
                         # later in the function by a matched pair for the same site
-                        later_pair = _has_pair_later(f.node, aliases, ek, kc.lineno)
+                        temp_index = any(k.arg == "inds" and any(isinstance(x, ast.Constant) and isinstance(x.value, str) for x in ast.walk(k.value)) for k in kc.keywords)
+                        later_pair = temp_index and _has_pair_later(f.node, aliases, ek, kc.lineno)
                         if later_pair:
                             r.ok(construct + " (temporary)", sample={"function": q, "ket update": src_of(kc)[:60], "bra": "matched by a later paired update"}, nontrivial=False)
                             continue
